@@ -125,6 +125,12 @@ func sub1(e *srvx.Episode) (uint32, uint32) {
 }
 
 func browseStep(s *scen, e *srvx.Episode, node *ua.NodeID, refsTest bool, rt uint32, inc bool) {
+	browseRef(s, e, node, refsTest, ua.NewNumericNodeID(0, rt), rt, inc)
+}
+
+// browseRef: rt is the numeric id the model is asked about (an id that is in no table for reference
+// types outside namespace 0)
+func browseRef(s *scen, e *srvx.Episode, node *ua.NodeID, refsTest bool, ref *ua.NodeID, rt uint32, inc bool) {
 	// the browsed nodes (Objects folder 85 / the test folder) have forward references of types
 	// Organizes(35), HasTypeDefinition(40) and HasComponent(47): another type is always present
 	other := 1
@@ -133,7 +139,7 @@ func browseStep(s *scen, e *srvx.Episode, node *ua.NodeID, refsTest bool, rt uin
 	idx := len(s.ex) - 1
 	pre := len(e.Recs)
 	// the model request needs the class; it is taken from the outcome (crash in suitableRefType = loop)
-	res := e.Do("missing", "browse PENDING "+fmt.Sprint(b2i(refsTest)), srvx.BrowseReq(node, ua.NewNumericNodeID(0, rt), inc, ua.BrowseDirectionForward), fmt.Sprintf("refType=%d includeSubtypes=%v", rt, inc))
+	res := e.Do("missing", "browse PENDING "+fmt.Sprint(b2i(refsTest)), srvx.BrowseReq(node, ref, inc, ua.BrowseDirectionForward), fmt.Sprintf("refType=%v includeSubtypes=%v", ref, inc))
 	_ = res
 	if len(e.Recs) > pre {
 		rec := &e.Recs[len(e.Recs)-1]
@@ -213,6 +219,9 @@ func scenarios(o *h.Opts, rnd *h.Rand) []*scen {
 		browseStep(s, e, ua.NewNumericNodeID(0, 85), false, 35, false)
 		browseStep(s, e, ua.NewNumericNodeID(0, 85), false, 40, false)
 		browseStep(s, e, ua.NewNumericNodeID(0, 85), false, 999999, false)
+		browseStep(s, e, ua.NewNumericNodeID(0, 85), false, 999999, true) // unknown reference type, subtypes wanted: getSubRefs of a missing node
+		browseRef(s, e, ua.NewNumericNodeID(0, 85), false, ua.NewStringNodeID(77, "nope"), 999998, true)
+		browseRef(s, e, srvx.TestFolder(), true, ua.NewNumericNodeID(3, 33), 999997, true)
 		for _, rt := range []uint32{32, 36, 37, 38, 39, 41, 44, 45, 46, 47, 48, 49, 51, 52, 53, 54, 56, 117, 129, 131} {
 			if o.Thorough() || rnd.Chance(35) {
 				browseStep(s, e, ua.NewNumericNodeID(0, 85), false, rt, false)
@@ -375,6 +384,63 @@ func scenarios(o *h.Opts, rnd *h.Rand) []*scen {
 	add("browse-datatype-overwritten", srvx.ChildSpec{}, func(s *scen, e *srvx.Episode) {
 		e.Do("missing", "writeattr DataType wrongtype", srvx.WriteAttrReq(srvx.TestVar(), ua.AttributeIDDataType, &ua.DataValue{EncodingMask: ua.DataValueValue, Value: ua.MustVariant(int32(3))}), "no session")
 		browseStep(s, e, srvx.TestFolder(), true, 0, true)
+	})
+
+	// ---- monitored items must not outlive their subscription: 120 value changes of the node afterwards
+	add("items-after-subscription-delete", srvx.ChildSpec{}, func(s *scen, e *srvx.Episode) {
+		e.Cast()
+		for round, n := range []int{5, 2} {
+			res := e.Do("valid", "createsub huge", srvx.CreateSubReq(3600000, 100000, 100000), "")
+			cr, ok := res.Resp.(*ua.CreateSubscriptionResponse)
+			if !ok {
+				return
+			}
+			e.Do("valid", fmt.Sprintf("createitems %d %d", cr.SubscriptionID, n), srvx.CreateItemsReq(cr.SubscriptionID, n, srvx.TestVar()), "")
+			e.Do("valid", "delsubs "+ids(cr.SubscriptionID), srvx.DeleteSubsReq(cr.SubscriptionID), "")
+			for i := 0; i < 120 && !e.Dead; i++ {
+				r := e.ChA.Do(srvx.WriteValueReq(srvx.TestVar(), int32(1000*round+i)), e.Valid.Tok, 5*time.Second)
+				if r.Class != "ok" {
+					x := extra{Case: fmt.Sprintf("Write #%d of the formerly monitored node after its subscription was deleted", i+1), Impl: r.Class, Bad: true,
+						Detail: fmt.Sprintf("after deleting a subscription with %d monitored items, write #%d to the node got %q: notifications for leaked items block the dispatcher", n, i+1, r.String())}
+					if e.Child.WaitExit(500 * time.Millisecond) {
+						site, msg := e.Child.CrashSite()
+						x.Detail += fmt.Sprintf(" (process died in %s [%s])", site, msg)
+						e.Dead = true
+					}
+					s.ex = append(s.ex, x)
+					return
+				}
+			}
+			s.oracleOnly(e, fmt.Sprintf("120 writes after deleting a subscription with %d items", n), srvx.Result{Class: "ok"})
+			e.Do("valid", "read", srvx.ReadReq(srvx.TestVar(), ua.AttributeIDValue), "tables after the writes")
+		}
+	})
+
+	// ---- several clients at once: handlers rely on being run one at a time
+	add("concurrent-clients", srvx.ChildSpec{}, func(s *scen, e *srvx.Episode) {
+		var wg sync.WaitGroup
+		for c := 0; c < 4; c++ {
+			wg.Add(1)
+			go func(c int) {
+				defer wg.Done()
+				ch, err := srvx.OpenStd(context.Background(), e.Child.URL, ua.SecurityPolicyURINone, ua.MessageSecurityModeNone, nil, nil, 8*time.Second)
+				if err != nil {
+					return
+				}
+				defer ch.Close()
+				for i := 0; i < 150; i++ {
+					if e.Child.Exited() {
+						return
+					}
+					dv := &ua.DataValue{EncodingMask: ua.DataValueValue, Value: ua.MustVariant(ua.NewLocalizedText(fmt.Sprintf("c%d-%d", c, i)))}
+					ch.Do(srvx.WriteAttrReq(srvx.TestBigVar(), ua.AttributeID(20+c), dv), nil, 5*time.Second)
+					ch.Do(srvx.ReadReq(srvx.TestBigVar(), ua.AttributeIDDescription), nil, 5*time.Second)
+					ch.Do(srvx.BrowseReq(srvx.TestFolder(), ua.NewNumericNodeID(0, 0), true, ua.BrowseDirectionBoth), nil, 5*time.Second)
+				}
+			}(c)
+		}
+		wg.Wait()
+		s.oracleOnly(e, "4 clients x 150 x (Write attribute, Read, Browse) concurrently", srvx.Result{Class: "done"})
 	})
 
 	// ---- channel level
